@@ -604,9 +604,37 @@ fn in_child(fmt: &str, w: usize, cap: usize) -> String {
     }
 }
 
+/// far seeks on a virtual file of 2^32 + 2^20 + 5 records (more than 2^37 bytes): offsets, line numbers and distances beyond 2^31 / 2^32
+fn far_cases(f: &mut std::io::BufWriter<std::fs::File>, thorough: bool) -> usize {
+    let mut cases = 0usize;
+    {
+        use crate::far::Step::*;
+        let nrec: u64 = (1u64 << 32) + (1u64 << 20) + 5;
+        let mut scripts = crate::far::scripts(thorough);
+        scripts.push(vec![Next, Seek(nrec - 1), Next, Next, Seek(nrec - 2), Set, Next, Seek(0), Next, Seek(nrec - 3), Next, Next, Next, Next, Set]);
+        for sc in scripts {
+            for cap in [64usize, 4096, 65536] {
+                for fasta in [true, false] {
+                    let sc2 = sc.clone();
+                    writeln!(f, "{}", guarded(format!("far seek fasta={} cap={}", fasta, cap), move || if fasta { crate::far::far_fasta(nrec, cap, sc2) } else { crate::far::far_fastq(nrec, cap, sc2) })).unwrap();
+                    cases += 1;
+                }
+            }
+        }
+    }
+    cases
+}
+
 pub fn cmd_long(out: &str, _seed: u64, thorough: bool) {
     let mut f = std::io::BufWriter::new(std::fs::File::create(out).unwrap());
     let mut cases = 0usize;
+    if std::env::var("VERIF_LONG_ONLY").as_deref() == Ok("far") {
+        // (development: only the far-seek cases)
+        cases += far_cases(&mut f, thorough);
+        f.flush().unwrap();
+        println!("{{\"cases\":{}}}", cases);
+        std::process::exit(0);
+    }
     let ns: Vec<usize> = if thorough { vec![300, 66000, 140000] } else { vec![300, 66000] };
     for fmt in ["fasta", "fastq"] {
         for &n in &ns {
@@ -721,6 +749,7 @@ pub fn cmd_long(out: &str, _seed: u64, thorough: bool) {
             cases += 1;
         }
     }
+    cases += far_cases(&mut f, thorough);
     f.flush().unwrap();
     println!("{{\"cases\":{}}}", cases);
     // (threads of cases that hang are still running)
